@@ -3,7 +3,10 @@
 usage: confirm_mutant.py <Cxx> <mk> [extra test pkgs...]"""
 import json, os, re, shutil, subprocess, sys
 pid, mk = sys.argv[1], sys.argv[2]
-wt = "/tmp/mut/" + pid
+import os as _os
+root = _os.environ.get("MUT_ROOT", "/tmp/mut")
+suffix = _os.environ.get("MUT_SUFFIX", "")
+wt = root + "/" + pid
 src = os.path.join(wt, "out", mk)
 meta = json.load(open(os.path.join(src, "meta.json")))
 env = dict(os.environ, GOFLAGS="-mod=mod", GOPROXY="off")
@@ -33,7 +36,7 @@ clean()
 ok = log["demo_without_patch"] == "pass" and log["build_vet_with_patch"] == "ok" and log["existing_tests_with_patch"] == "pass" and log["demo_with_patch"].startswith("fails")
 print(json.dumps(log, indent=1)); print("CONFIRMED" if ok else "NOT CONFIRMED")
 if ok:
-    dst = "/verif/seeded/%s-%s" % (pid, mk)
+    dst = "/verif/seeded/%s-%s%s" % (pid, mk, suffix)
     os.makedirs(dst, exist_ok=True)
     shutil.copy(os.path.join(src, "patch.diff"), dst)
     shutil.copy(os.path.join(src, demo), dst)
